@@ -133,7 +133,7 @@ func sortedStrKeys(m map[string]string) []string {
 }
 
 // buildC17 assembles a case from lattice coordinates.
-func buildC17(dir string, explicit int, cpnSrc int, cpnValid bool, fileCfg int, varMask int, refFromDot bool, defaultEnv bool, nameFirst bool) c17Case {
+func buildC17(dir string, explicit int, cpnSrc int, cpnValid bool, fileCfg int, varMask int, refFromDot bool, defaultEnv bool, nameFirst bool, emptyTop ...bool) c17Case {
 	cs := c17Case{DirName: dir, NameFirst: nameFirst, DefaultEnv: defaultEnv, ExplicitEnv: map[string]string{}, OSEnv: map[string]string{}}
 	switch explicit {
 	case 1:
@@ -198,6 +198,15 @@ func buildC17(dir string, explicit int, cpnSrc int, cpnValid bool, fileCfg int, 
 			}
 			if varMask&8 != 0 {
 				dot2["C17_VAR"] = "from-dotenv2"
+			}
+		}
+		if len(emptyTop) > 0 && emptyTop[0] {
+			// precedence is about being set: a variable that is set to the empty string in a higher layer
+			// still hides the lower ones
+			if varMask&1 != 0 {
+				cs.ExplicitEnv["C17_VAR"] = ""
+			} else if varMask&2 != 0 {
+				cs.OSEnv["C17_VAR"] = ""
 			}
 		}
 		if refFromDot {
@@ -415,6 +424,9 @@ func TestC17(t *testing.T) {
 		for _, ref := range []bool{false, true} {
 			for _, def := range []bool{false, true} {
 				cases = append(cases, buildC17("envdir", 0, 0, true, 0, mask, ref, def, false))
+				if mask&3 != 0 {
+					cases = append(cases, buildC17("envdir", 0, 0, true, 0, mask, ref, def, false, true))
+				}
 			}
 		}
 	}
@@ -431,6 +443,6 @@ func TestC17(t *testing.T) {
 			}
 			cpnSrc := rapid.IntRange(0, 4).Draw(t, "cpn")
 			return buildC17(dir, rapid.IntRange(0, 2).Draw(t, "explicit"), cpnSrc, rapid.Bool().Draw(t, "valid") || cpnSrc == 0 || cpnSrc == 4,
-				rapid.IntRange(0, 6).Draw(t, "files"), rapid.IntRange(0, 15).Draw(t, "mask"), rapid.Bool().Draw(t, "ref"), rapid.Bool().Draw(t, "def"), rapid.Bool().Draw(t, "first"))
+				rapid.IntRange(0, 6).Draw(t, "files"), rapid.IntRange(0, 15).Draw(t, "mask"), rapid.Bool().Draw(t, "ref"), rapid.Bool().Draw(t, "def"), rapid.Bool().Draw(t, "first"), rapid.IntRange(0, 3).Draw(t, "emptytop") == 0)
 		}, Check: c17Check})
 }
